@@ -645,6 +645,11 @@ func run(c *drv.Ctx) error {
 		seed := c.Rand.Int63()
 		jobs <- func() error { return history(c, bin, seed, i) }
 	}
+	// two repositories whose repo ids, root version ids and positions differ; one scenario per restart mode
+	for _, mode := range []string{"clean", "abrupt", "sigkill"} {
+		mode := mode
+		jobs <- func() error { return secondRepoMutationIDs(c, bin, mode) }
+	}
 	// crash sweeps: census the script's writes first
 	for si, nImg := range []int{0, 97} {
 		if c.Quick() && si == 1 {
